@@ -1704,7 +1704,8 @@ class SequenceOfAndSetOfBase(base.ConstructedAsn1Type):
             raise ValueError(sys.exc_info()[1])
 
     def reverse(self):
-        self._componentValues.reverse()
+        self._componentValues = dict(
+            enumerate(reversed(self.components)))
 
     def sort(self, key=None, reverse=False):
         self._componentValues = dict(
